@@ -527,6 +527,15 @@ def execute(sc):
     cfg = sc["config"]
     fmt = cfg["fmt"]
     strings = ops.Strings()
+    # a bystander of the same class, alive for the whole session: nothing done to the
+    # session's object may change it (state shared between instances)
+    bystander = start_object(cfg, lib)
+    if cfg["start"] != "corpus":
+        bc = lib.SMChart.blank() if fmt == "sm" else lib.SSCChart.blank()
+        bystander.charts.append(bc)
+        bystander["BYSTANDER"] = "b"
+    by_plain = ops.real_plain(bystander, lib)
+    by_text = str(bystander)
     sf = start_object(cfg, lib)
     model = simfile_from_plain(ops.real_plain(sf, lib))
     guard = sc.get("guard", True)
@@ -614,6 +623,10 @@ def execute(sc):
             if r is not None and r[0] != r[1]:
                 res.stats["op-outcome-mismatch"] += 1
                 model = simfile_from_plain(ops.real_plain(sf, lib))
+    if not res.violations:
+        if ops.real_plain(bystander, lib) != by_plain or str(bystander) != by_text:
+            res.violate(prop, "another-object-changed", before=_trim(by_plain),
+                        after=_trim(ops.real_plain(bystander, lib)))
     res.log(prop, [v.sig() for v in res.violations], sorted(res.stats.items()))
     return res
 
